@@ -1118,4 +1118,141 @@ theorem runFiles_crash {fs : List TestFile} (h : Impl.runFiles fs = .error .cras
         exact ⟨g, by simp [hg], t, hc, hn⟩
       | ok frs => rw [hr] at h; cases h
 
+
+/-! ### repeated dictionary keys: every (key, value) pair is a member -/
+
+mutual
+theorem reaches_of_mem (t : Tree) (p : Path) (l : Leaf) (h : (p, l) ∈ leaves t) : Reaches t p (.leaf l) := by
+  cases t with
+  | leaf l' => simp [leaves] at h; rw [h.1, h.2]; exact Reaches.here
+  | tup as =>
+    simp only [leaves] at h
+    obtain ⟨n, c, p', rfl, hm, hr⟩ := reachesAttrs_of_mem as p l h
+    exact Reaches.attr hm hr
+  | arr off items =>
+    simp only [leaves] at h
+    obtain ⟨i, c, p', rfl, hm, hr, _⟩ := reachesItems_of_mem items off p l h
+    exact Reaches.idx hm hr
+  | dict es =>
+    simp only [leaves] at h
+    obtain ⟨k, c, p', rfl, hm, hr⟩ := reachesEntries_of_mem es p l h
+    exact Reaches.key hm hr
+theorem reachesAttrs_of_mem (as : List (Name × Tree)) (p : Path) (l : Leaf) (h : (p, l) ∈ leavesAttrs as) :
+    ∃ n c p', p = .attr n :: p' ∧ (n, c) ∈ as ∧ Reaches c p' (.leaf l) := by
+  cases as with
+  | nil => simp [leavesAttrs] at h
+  | cons a r =>
+    obtain ⟨m, t⟩ := a
+    simp only [leavesAttrs, List.mem_append] at h
+    rcases h with h | h
+    · obtain ⟨p', rfl, hm⟩ := mem_map_pre.1 h
+      exact ⟨m, t, p', rfl, by simp, reaches_of_mem t p' l hm⟩
+    · obtain ⟨n, c, p', hp, hm, hr⟩ := reachesAttrs_of_mem r p l h
+      exact ⟨n, c, p', hp, by simp [hm], hr⟩
+theorem reachesItems_of_mem (items : List (Option Tree)) (j : Int) (p : Path) (l : Leaf)
+    (h : (p, l) ∈ leavesItems items j) :
+    ∃ i c p', p = .idx i :: p' ∧ lookupItem i items j = some c ∧ Reaches c p' (.leaf l) ∧ j ≤ i := by
+  cases items with
+  | nil => simp [leavesItems] at h
+  | cons a r =>
+    cases a with
+    | none =>
+      simp only [leavesItems] at h
+      obtain ⟨i, c, p', hp, h1, h2, hi⟩ := reachesItems_of_mem r (j + 1) p l h
+      have hne : i ≠ j := by omega
+      exact ⟨i, c, p', hp, by simp [lookupItem, hne, h1], h2, by omega⟩
+    | some t =>
+      simp only [leavesItems, List.mem_append] at h
+      rcases h with h | h
+      · obtain ⟨p', rfl, hm⟩ := mem_map_pre.1 h
+        exact ⟨j, t, p', rfl, by simp [lookupItem], reaches_of_mem t p' l hm, by omega⟩
+      · obtain ⟨i, c, p', hp, h1, h2, hi⟩ := reachesItems_of_mem r (j + 1) p l h
+        have hne : i ≠ j := by omega
+        exact ⟨i, c, p', hp, by simp [lookupItem, hne, h1], h2, by omega⟩
+theorem reachesEntries_of_mem (es : List (Key × Tree)) (p : Path) (l : Leaf) (h : (p, l) ∈ leavesEntries es) :
+    ∃ k c p', p = .key k :: p' ∧ (k, c) ∈ es ∧ Reaches c p' (.leaf l) := by
+  cases es with
+  | nil => simp [leavesEntries] at h
+  | cons a r =>
+    obtain ⟨m, t⟩ := a
+    simp only [leavesEntries, List.mem_append] at h
+    rcases h with h | h
+    · obtain ⟨p', rfl, hm⟩ := mem_map_pre.1 h
+      exact ⟨m, t, p', rfl, by simp, reaches_of_mem t p' l hm⟩
+    · obtain ⟨n, c, p', hp, hm, hr⟩ := reachesEntries_of_mem r p l h
+      exact ⟨n, c, p', hp, by simp [hm], hr⟩
+end
+
+mutual
+theorem mem_of_reaches (t : Tree) (p : Path) (l : Leaf) (h : Reaches t p (.leaf l)) : (p, l) ∈ leaves t := by
+  cases t with
+  | leaf l' =>
+    cases h with
+    | here => simp [leaves]
+  | tup as =>
+    cases h with
+    | attr hm hr => exact memAttrs_of_reaches as _ _ _ l hm hr
+  | arr off items =>
+    cases h with
+    | idx hm hr => exact memItems_of_reaches items off _ _ _ l hm hr
+  | dict es =>
+    cases h with
+    | key hm hr => exact memEntries_of_reaches es _ _ _ l hm hr
+theorem memAttrs_of_reaches (as : List (Name × Tree)) (n : Name) (c : Tree) (p : Path) (l : Leaf)
+    (hm : (n, c) ∈ as) (hr : Reaches c p (.leaf l)) : (Step.attr n :: p, l) ∈ leavesAttrs as := by
+  cases as with
+  | nil => simp at hm
+  | cons a r =>
+    obtain ⟨m, t⟩ := a
+    simp only [leavesAttrs, List.mem_append]
+    rcases List.mem_cons.1 hm with e | hm'
+    · simp only [Prod.mk.injEq] at e
+      rw [e.2] at hr
+      exact Or.inl (List.mem_map.2 ⟨(p, l), mem_of_reaches t p l hr, by simp [pre, e.1]⟩)
+    · exact Or.inr (memAttrs_of_reaches r n c p l hm' hr)
+theorem memItems_of_reaches (items : List (Option Tree)) (j i : Int) (c : Tree) (p : Path) (l : Leaf)
+    (hm : lookupItem i items j = some c) (hr : Reaches c p (.leaf l)) :
+    (Step.idx i :: p, l) ∈ leavesItems items j := by
+  cases items with
+  | nil => simp [lookupItem] at hm
+  | cons a r =>
+    simp only [lookupItem] at hm
+    by_cases hij : i = j
+    · simp [hij] at hm
+      cases a with
+      | none => cases hm
+      | some t =>
+        have e : t = c := by simpa using hm
+        rw [← e] at hr
+        simp only [leavesItems, List.mem_append]
+        exact Or.inl (List.mem_map.2 ⟨(p, l), mem_of_reaches t p l hr, by simp [pre, hij]⟩)
+    · simp [hij] at hm
+      have ih := memItems_of_reaches r (j + 1) i c p l hm hr
+      cases a with
+      | none => simpa [leavesItems] using ih
+      | some t => simp only [leavesItems, List.mem_append]; exact Or.inr ih
+theorem memEntries_of_reaches (es : List (Key × Tree)) (k : Key) (c : Tree) (p : Path) (l : Leaf)
+    (hm : (k, c) ∈ es) (hr : Reaches c p (.leaf l)) : (Step.key k :: p, l) ∈ leavesEntries es := by
+  cases es with
+  | nil => simp at hm
+  | cons a r =>
+    obtain ⟨m, t⟩ := a
+    simp only [leavesEntries, List.mem_append]
+    rcases List.mem_cons.1 hm with e | hm'
+    · simp only [Prod.mk.injEq] at e
+      rw [e.2] at hr
+      exact Or.inl (List.mem_map.2 ⟨(p, l), mem_of_reaches t p l hr, by simp [pre, e.1]⟩)
+    · exact Or.inr (memEntries_of_reaches r k c p l hm' hr)
+end
+
+/-- the leaves of a dictionary: entry by entry, the leaves of the value under the key's step —
+whether or not keys repeat -/
+theorem leavesEntries_flatMap (es : List (Key × Tree)) :
+    leavesEntries es = es.flatMap (fun e => (leaves e.2).map (pre (.key e.1))) := by
+  induction es with
+  | nil => simp [leavesEntries]
+  | cons a r ih =>
+    obtain ⟨k, t⟩ := a
+    simp [leavesEntries, ih]
+
 end Arrai.C20
